@@ -49,9 +49,13 @@ def c17_1(ctx):
         for t in tries:
             names |= sym.handler_names(t)
         ctx.check(bool(names & {"EncodingError", "ValueError", "Exception", "BaseException"}), "decode-errors-to-false", ctx.where(f, e.node), "verify_message does not convert decoding errors to False")
-        hb = [x for t in tries for h in t.handlers for x in h.body]
-        ret_false = any(isinstance(x, ast.Return) and isinstance(x.value, ast.Constant) and x.value.value is False for x in hb)
-        ctx.check(ret_false, "handler-returns-false", ctx.where(f), "the decoding-error handler does not return False")
+    # what happens on the paths where decoding raised: every one of them ends in `return False` (through a handler that
+    # returns False, or through one that hands back a marker the caller turns into False)
+    caught = [e for e in w.exits if e.cond not in (True, False) and any(isinstance(o, str) and o.startswith("exc@") for o in gi.f_opaques(e.cond)) and sym.entails(e.cond, gi.f_or(*[("op", o) for o in gi.f_opaques(e.cond) if isinstance(o, str) and o.startswith("exc@")]))]
+    if not caught:
+        raise Undecided("verify_message: no path on which a decoding error was caught")
+    for e in caught:
+        ctx.check(e.kind == "return" and isinstance(e.value, ast.Constant) and e.value.value is False, "handler-returns-false", ctx.where(f, e.node), "after a decoding error verify_message ends with `%s %s`, not `return False`" % (e.kind, norm(e.value) if e.value is not None else ""))
     # empty message is a message: the digest is chosen by `message is not None`
     msgp = f.params()[3]
     hs = sym.calls_matching(w, ".hash_for_signing")
